@@ -1096,6 +1096,22 @@ func (w *jobWorld) onJobWrite(wr sim.Write) {
 	}
 	old, new := wr.Old.(*execution.Job), wr.New.(*execution.Job)
 	w.Count("C11.job-version")
+	// A success the controller records after the pod disappeared was evidently observed: no longer ambiguous.
+	if wr.Actor == "ctrl" {
+		for _, t := range new.Status.Tasks {
+			if t.Status.Result == execution.TaskSucceeded && w.mem.Ended[t.Name] == "maybe-succeeded" {
+				idx := parallel.GetDefaultIndex()
+				if t.ParallelIndex != nil {
+					idx = *t.ParallelIndex
+				}
+				if h, err := parallel.HashIndex(idx); err == nil {
+					w.mem.Ended[t.Name] = "succeeded"
+					w.mem.Succeeded[string(new.UID)+"/"+h] = true
+					delete(w.mem.Maybe, string(new.UID)+"/"+h)
+				}
+			}
+		}
+	}
 	// user edits after finish
 	if wr.Actor == "env" && old.Status.Condition.Finished != nil && !old.Spec.KillTimestamp.Equal(new.Spec.KillTimestamp) {
 		w.mem.EditedFin[key] = true
